@@ -6,7 +6,8 @@ a freshly started interpreter that has only imported the libraries.  Contracts (
   inputs   : after every call the data frames, the formula specs (mutable list / dict specs; for shared
              Formula objects and the formulas held by shared specs a deep snapshot of every term and of
              every factor attribute: expr, eval method, kind, metadata, token) and the context dict -- including the mutable lists / dicts / arrays in it
-             that formulas hand to transforms as arguments -- equal deep copies taken before;
+             that formulas hand to transforms as arguments -- equal deep copies taken before; the global
+             numpy.random / random streams are in the same state after a call as before it;
   history  : the result of call i (values bit for bit, dtypes, column order, index labels, rows the
              caller's drop set reports) equals the result of *the same call made in a fresh process*
              -- for a build: that build alone; for a spec re-use: the build that produced the spec,
@@ -52,10 +53,15 @@ SPECS = {
     "custom-contrasts-dict": "C(A, contrasts=cm) + a",
     "scale-center-list": "scale(a, center=ctr) + b",
     "poly-array": "poly(b, 2) + a:pw[0]",
+    # columns whose names are not identifiers, back-ticked inside several Python-evaluated (stateful) factors
+    "backtick-two-stateful": "center(`my col`) + scale(`my col`)",
+    "backtick-plain+stateful": "I(`my col`**2) + center(`my col`)",
+    "backtick-lookup+stateful": "`my col` + center(`a-b`) + scale(`a-b`):A",
 }
-STATEFUL = {"center", "scale:B", "poly", "bs", "many-factors", "dict-spec", "C-sum", "bs-knots-list", "cr-knots-list", "scale-center-list", "poly-array"}
-CORE = ["a+A", "center", "bs-knots-list"]
-CORE_THOROUGH = ["a+A", "center", "poly", "dict-spec", "scale:B", "two-sided", "bs-knots-list", "list-spec"]
+STATEFUL = {"center", "scale:B", "poly", "bs", "many-factors", "dict-spec", "C-sum", "bs-knots-list", "cr-knots-list", "scale-center-list", "poly-array",
+            "backtick-two-stateful", "backtick-plain+stateful", "backtick-lookup+stateful"}
+CORE = ["a+A", "backtick-two-stateful", "bs-knots-list"]
+CORE_THOROUGH = ["a+A", "center", "poly", "dict-spec", "backtick-two-stateful", "two-sided", "bs-knots-list", "backtick-lookup+stateful"]
 DATA = ("d0", "d1", "d2")
 DATA_KINDS = ("d0", "d2", "d3")  # d3: column A holds numbers instead of text (same formula object, other kind)
 # a dict-of-columns input ("dd" in the runtime) is rejected by the library on this Python ('builtins.dict' is not a
@@ -216,6 +222,11 @@ def _check_histories(ctx, b, rep, histories, base, iso_results):
         for m in r["mutations"]:
             op = h[m["after_call"]]
             cls = f"{m['what']}:{op[0]}:{_spec_name(op[1]) if op[0] in BUILD_KINDS else 'reuse'}"
+            if m["what"] == "rng":
+                origin = op if op[0] in BUILD_KINDS else (h[op[1]] if op[0] in ("reuse", "mm_of") else h[op[1][0]])
+                data = op[2]
+                if data == "d2" and "`my col`" in json.dumps(origin[1]):
+                    cls += ":data-has-a-column-named-like-the-alias"
             rep.fail(f"C18.inputs.{m['what']}-unchanged", cls,
                      {"history": _describe(h), "after_call": m["after_call"], "code": repro_mutation(h)},
                      f"{m['object']} changed after call {m['after_call']} {op}: {m['detail']}")
@@ -280,7 +291,8 @@ def run_bounded(ctx):
         "context variables, two-sided / multi-part) x 4 frames (one with nulls and string index, one with other levels, one in which the text column holds numbers) x 3 outputs x "
         "builds (model_matrix, shared Formula, shared un-materialized spec), re-uses (spec.get_model_matrix, model_matrix(<earlier "
         "result>)) and joint builds of two earlier specs in one ModelSpecs; context holds mutable lists / dicts / arrays that formulas "
-        "pass to transforms (knots=, contrasts=, levels=, center=); histories revolve around one or two formulas; non-trivial = more than one call",
+        "pass to transforms (knots=, contrasts=, levels=, center=); frames have columns whose names are not identifiers ('my col', "
+        "'a-b'; one frame also has 'my_col') used back-ticked in several stateful factors; histories revolve around one or two formulas; non-trivial = more than one call",
         exhaustive=False,
         bound="history length<=5",
     ) as b:
